@@ -233,6 +233,12 @@ func (g *genState) paramValue(i int, name string) Arg {
 		ch := Chunk{Kind: "todo"}
 		if src.Bool("todomsg") {
 			ch.HasDef, ch.Def = true, choice.Pick(src, "todomsgv", []string{"in development", "not implemented (yet)", "a, b (c)", "see docs) then (retry", "quota reached: 90%", "%d items %s", ""})
+			if src.Chance("todoextra", 1, 4) {
+				ch.Extra = choice.Pick(src, "todoextrav", []string{"see docs/ports.md", "owner: platform team", ""})
+				if ch.Extra == "" {
+					ch.Extra = "x"
+				}
+			}
 		}
 		return Arg{Kind: "pattern", Chunks: []Chunk{ch}}
 	case "fn":
@@ -395,6 +401,9 @@ func (g *genState) service(name string, i int) Svc {
 		return full
 	}
 	kinds := []string{"ctor", "ctor", "ctor", "ctorE", "value"}
+	if !g.o.Plain && !g.o.NoScopes {
+		kinds = append(kinds, "var")
+	}
 	if !g.o.OnlyPtr {
 		kinds = append(kinds, "type", "leaf")
 	}
@@ -419,6 +428,11 @@ func (g *genState) service(name string, i int) Svc {
 			// a bare value: no constructor, no fields, no calls (its identity is observable at top level only)
 			kind = "leaf"
 		}
+	case "var":
+		// the service is a package-level variable (not a literal): whatever scope it declares is legal; a
+		// string has no identity to observe, its dependants' scopes follow from it all the same
+		s.Value = g.fx("GlobalVal")
+		kind = "leaf"
 	case "type":
 		s.Type = g.fx("Node")
 		s.Fields = append(s.Fields, Field{"Name", nameArg})
